@@ -90,7 +90,7 @@ def register(reg):
            ("arity", "parent.children is not None and fresh(parent.children) and len(parent.children) == Arity(self)",
             "C02 C03"),
            ("kids-fresh", "all(fresh(parent.children[j]) and parent.children[j].children is None "
-                          "for j in range(len(parent.children)))", "C03 C06"),
+                          "and NodeInit(parent.children[j]) for j in range(len(parent.children)))", "C03 C06"),
            ("layers-kept", "all(self.node_list[h] is old(self.node_list[h]) for h in range(old(self.depth) + 1))", "C03"),
            ("layers-append-only",
             "all(self.node_list[h][k] is old(self.node_list[h][k]) for h in range(old(self.depth) + 1) "
@@ -100,17 +100,71 @@ def register(reg):
            ("new-layer", "implies(newlayer, len(self.node_list[self.depth]) == len(parent.children))", "C03"),
        ])
 
-    # ------------------------------------------------------------------ BinaryPartition.make_children
+    # ------------------------------------------------------------------ geometry of a split (C02)
+    pred("SameInterval", "c, p, j", "c.domain[j][0] == p.domain[j][0] and c.domain[j][1] == p.domain[j][1]")
+    pred("ChainSplit", "parent, s",
+         "0 <= s and s < len(parent.domain) "
+         "and all(parent.children[i].domain[s][0] <= parent.children[i].domain[s][1] for i in range(len(parent.children))) "
+         "and parent.children[0].domain[s][0] == parent.domain[s][0] "
+         "and parent.children[len(parent.children) - 1].domain[s][1] == parent.domain[s][1] "
+         "and all(parent.children[i].domain[s][1] == parent.children[i + 1].domain[s][0] "
+         "for i in range(len(parent.children) - 1)) "
+         "and all(implies(j != s, SameInterval(parent.children[i], parent, j)) "
+         "for i in range(len(parent.children)) for j in range(len(parent.domain)))")
+    pred("EqualWidths", "parent, s",
+         "all(parent.children[i].domain[s][1] - parent.children[i].domain[s][0] == "
+         "(parent.domain[s][1] - parent.domain[s][0]) / len(parent.children) for i in range(len(parent.children)))")
+    pred("DomainFresh", "c",
+         "fresh(c.domain) and all(fresh(c.domain[j]) for j in range(len(c.domain))) and fresh(c.c_point)")
+    pred("NodeInit", "c", "True")
+
+    # "there is a split dimension s such that ..." : the witness is the local `dim` of the body
+    CHAIN = ("chain", "ChainSplit(parent, s)", "C02 C16", {"s": ("int", "dim")})
+    EQUAL = ("equal-widths", "ChainSplit(parent, s) and EqualWidths(parent, s)", "C02", {"s": ("int", "dim")})
+    KFRESH = ("kids-own-lists", "all(DomainFresh(parent.children[j]) for j in range(len(parent.children)))", "C14 C02")
+    MC_PARAMS = {"parent": "ref:$N", "newlayer": "bool"}
+
+    # ------------------------------------------------------------------ BinaryPartition / RandomBinaryPartition
     fn("BinaryPartition.make_children", implements="Partition.make_children", props="C01 C02 C03 C14 C16",
-       params={"parent": "ref:$N", "newlayer": "bool"},
-       locals={"new_deepest": "list[ref:$N]"},
-       ensures=[
-           ("split", "any(parent.children[0].domain[s][0] == old(parent.domain[s][0]) "
-                     "and parent.children[0].domain[s][1] == (old(parent.domain[s][0]) + old(parent.domain[s][1])) / 2 "
-                     "and parent.children[1].domain[s][0] == parent.children[0].domain[s][1] "
-                     "and parent.children[1].domain[s][1] == old(parent.domain[s][1]) "
-                     "and all(implies(j != s, parent.children[i].domain[j][0] == old(parent.domain[j][0]) and "
-                     "parent.children[i].domain[j][1] == old(parent.domain[j][1])) "
-                     "for i in range(2) for j in range(len(parent.domain))) "
-                     "for s in range(len(parent.domain)))", "C02 C16"),
-       ])
+       params=MC_PARAMS, locals={"new_deepest": "list[ref:$N]"}, ensures=[CHAIN, EQUAL, KFRESH])
+    fn("RandomBinaryPartition.make_children", implements="Partition.make_children", props="C01 C02 C03 C14 C16",
+       params=MC_PARAMS, locals={"new_deepest": "list[ref:$N]"}, ensures=[CHAIN, KFRESH])
+
+    # ------------------------------------------------------------------ KaryPartition / RandomKaryPartition
+    kary_inv = [
+        ("len", "len(new_nodes) == i and fresh(new_nodes)"),
+        ("kids-fresh", "all(fresh(new_nodes[j]) for j in range(i))"),
+        ("kids-links", "all(new_nodes[j].parent is parent and new_nodes[j].depth == parent.depth + 1 "
+                       "and new_nodes[j].index == self.K * parent.index - (self.K - j - 1) "
+                       "and new_nodes[j].children is None and NodeInit(new_nodes[j]) for j in range(i))"),
+        ("kids-lists", "all(DomainFresh(new_nodes[j]) and len(new_nodes[j].domain) == len(parent_domain) "
+                       "and all(len(new_nodes[j].domain[d]) == 2 for d in range(len(parent_domain))) for j in range(i))"),
+        ("kids-centre", "all(IsCentre(new_nodes[j].c_point, new_nodes[j].domain) for j in range(i))"),
+        ("kids-other-dims", "all(implies(d != dim, new_nodes[j].domain[d][0] == parent_domain[d][0] "
+                            "and new_nodes[j].domain[d][1] == parent_domain[d][1]) "
+                            "for j in range(i) for d in range(len(parent_domain)))"),
+    ]
+    fn("KaryPartition.make_children", implements="Partition.make_children", props="C01 C02 C03 C14 C16",
+       params=MC_PARAMS, locals={"new_nodes": "list[ref:$N]"},
+       requires=[("K", "self.K >= 2", "C01 C02")],
+       ensures=[CHAIN, EQUAL, KFRESH])
+    loop("KaryPartition.make_children", 0, props="C02 C03", var="i", modifies=["list(new_nodes)"],
+         invariants=kary_inv + [
+             ("kids-split", "all(new_nodes[j].domain[dim][0] == boundary_points[j] "
+                            "and new_nodes[j].domain[dim][1] == boundary_points[j + 1] for j in range(i))"),
+         ])
+    fn("RandomKaryPartition.make_children", implements="Partition.make_children", props="C01 C02 C03 C14 C16",
+       params=MC_PARAMS, locals={"new_nodes": "list[ref:$N]"},
+       requires=[("K", "self.K >= 2", "C01 C02")],
+       ensures=[CHAIN, KFRESH])
+    loop("RandomKaryPartition.make_children", 0, props="C02 C03", var="i", modifies=["list(new_nodes)"],
+         invariants=kary_inv + [
+             ("bp-range", "selected_dim[0] <= boundary_point_1 and boundary_point_1 <= selected_dim[1] "
+                          "and selected_dim[0] <= boundary_point_0 and boundary_point_0 <= boundary_point_1"),
+             ("bp-first", "implies(i == 0, boundary_point_0 == selected_dim[0])"),
+             ("bp-last", "implies(i > 0, boundary_point_1 == new_nodes[i - 1].domain[dim][1])"),
+             ("bp-end", "implies(i == self.K, boundary_point_1 == selected_dim[1])"),
+             ("kids-chain", "all(new_nodes[j].domain[dim][0] <= new_nodes[j].domain[dim][1] for j in range(i)) "
+                            "and implies(i > 0, new_nodes[0].domain[dim][0] == selected_dim[0]) "
+                            "and all(new_nodes[j].domain[dim][1] == new_nodes[j + 1].domain[dim][0] for j in range(i - 1))"),
+         ])
